@@ -8,4 +8,5 @@ import AJ.Model.DotParse
 import AJ.Spec
 import AJ.Model.Run
 import AJ.Model.Full
+import AJ.Model.Flat
 import AJ.Props
